@@ -229,7 +229,8 @@ func (cs *codecSide) tokensOnPath(p *Path) (toks []string, problems []string) {
 				toks = append(toks, "N:"+t)
 			} else if f := calleeFunc(cc); f != nil && (f.Name() == "WriteTo" || f.Name() == "ReadFrom") {
 				toks = append(toks, "N:"+recvTypeName(f))
-			} else {
+			} else if !p.InlinedCall(call) {
+				// (a local helper the walker descended into contributes its own tokens)
 				problems = append(problems, fmt.Sprintf("%s: the stream is handed to %s, whose layout is not modelled", cs.P.InstrPos(ins), id))
 			}
 		}
